@@ -10,6 +10,24 @@ HPP = "DREAM/Optimization/tsgParticleSwarm.hpp"
 STATE = "TasOptimization::ParticleSwarmState"
 
 
+def flag_false(e):
+    """text of the boolean expression F when e says 'F is false' (!F, F == false, false == F, F != true); None otherwise"""
+    e = strip(e)
+    if e is None:
+        return None
+    if e.get("k") in ("UnaryOperator", "CXXOperatorCallExpr") and e.get("op") == "!":
+        return txt(strip([c for c in e["c"] if isinstance(c, dict)][-1]))
+    if e.get("k") == "BinaryOperator" and e.get("op") in ("==", "!="):
+        a, b = strip(e["c"][0]), strip(e["c"][1])
+        for x, y in ((a, b), (b, a)):
+            if y is not None and y.get("k") == "CXXBoolLiteralExpr":
+                lit = (y.get("val") == "true")
+                if (e["op"] == "==" and not lit) or (e["op"] == "!=" and lit):
+                    return txt(x)
+    return None
+
+
+
 def run(chk):
     db = DB("serial")
     db.load_all()
@@ -140,11 +158,15 @@ def run(chk):
             for c, tr in edges:
                 if not tr or c.get("k") != "BinaryOperator" or c.get("op") != "||":
                     continue
-                a, b = strip(c["c"][0]), strip(c["c"][1])
-                ta, tb = txt(a), txt(b)
-                if ta.replace(" ", "") == "!state.cache_best_particle_inside[%s]" % k.replace(" ", "") and b.get("k") == "BinaryOperator" and b.get("op") == "<":
-                    lhs_v, rhs_v = txt(strip(b["c"][0])), txt(strip(b["c"][1]))
-                    if rhs_v == "state.cache_best_particle_fvals[%s]" % k and stored and lhs_v == stored[0]:
+                for a, b in ((strip(c["c"][0]), strip(c["c"][1])), (strip(c["c"][1]), strip(c["c"][0]))):
+                    # a: 'no best yet' in any spelling (!flag[k], flag[k] == false); b: stored value strictly below the best value, operands in either order
+                    fa = flag_false(a)
+                    if fa is None or fa.replace(" ", "") != "state.cache_best_particle_inside[%s]" % k.replace(" ", ""):
+                        continue
+                    if b is None or b.get("k") != "BinaryOperator" or b.get("op") not in ("<", ">"):
+                        continue
+                    small, large = (b["c"][0], b["c"][1]) if b["op"] == "<" else (b["c"][1], b["c"][0])
+                    if txt(strip(large)) == "state.cache_best_particle_fvals[%s]" % k and stored and txt(strip(small)) == stored[0]:
                         imp_ok = True
             chk.ob("C20-D2.best", fn.name, "slot [%s] %s write: particle inside the domain" % (k, kind), inside_ok, up.loc(n), str(texts)[:200])
             chk.ob("C20-D2.best", fn.name, "slot [%s] %s write: no best yet or strictly better (value compared = value stored)" % (k, kind), imp_ok, up.loc(n), str(texts)[:260])
@@ -175,7 +197,7 @@ def run(chk):
         adv = [x for x in walk(body, into_lambda=False) if x.get("k") == "CompoundAssignOperator" and x.get("op") == "+=" and "particle_positions" in txt(x["c"][0]) and "particle_velocities" in txt(x["c"][1])]
         chk.ob("C20-D4.loop", fn.name, "positions advanced by the velocities once, before the evaluation", len(adv) == 1 and bool(evs) and adv[0].get("l", 0) < evs[0].get("l", 0), fn.loc(l))
     # the initial cache fill is guarded by !cache_initialized and sets it
-    ci = [i for i in walk(fn.body, into_lambda=False) if i.get("k") == "IfStmt" and txt(strip(i["cond"])).replace("state.", "") == "!cache_initialized"]
+    ci = [i for i in walk(fn.body, into_lambda=False) if i.get("k") == "IfStmt" and (flag_false(i["cond"]) or "").replace("state.", "") == "cache_initialized"]
     okc = bool(ci) and any(txt(x).replace("state.", "") == "cache_initialized = true" for x in walk(ci[0]["then"]))
     chk.ob("C20-D4.loop", fn.name, "cache filled exactly when not initialised", okc, fn.loc(ci[0]) if ci else fn.where)
 
